@@ -200,6 +200,108 @@ theorem C20_exports :
     Gen.wasmGlobals.all (fun g => Gen.jsExports.any (fun e => e.1 == g)) = true ∧
     Gen.wasmGlobals.length = 5 := by decide
 
+theorem parseStringArg_str (s : Bytes) (h : s ≠ []) : parseStringArg (.str s) = some s := by
+  unfold parseStringArg; cases s with | nil => exact absurd rfl h | cons _ _ => rfl
+
+theorem parseIntArg_nat (n : Nat) : parseIntArg (.int (n : Int)) = some (n : Int) := by
+  unfold parseIntArg; simp only; rw [if_neg (by omega)]
+
+/-- C20 (TOTP verdicts): for every decodable secret, every code, instant, period ≥ 1 and skew ≤ 10 the binding's
+`validateTOTP` returns exactly the native verdict (the two window loops are the same function of the per-step check,
+and the per-step checks agree by `C20_validate_core`) -/
+theorem C20_validateTOTP (O : HashOracle) (secret code key d a : Bytes) (ts s per : Nat)
+    (hs : decodeSecret secret = .ok key) (hne : secret ≠ [] ∧ code ≠ [] ∧ d ≠ [] ∧ a ≠ [])
+    (hsk : s ≤ 10) (hper : 1 ≤ per) :
+    jsValidateTOTP O [.str secret, .str code, .int ts, .str d, .str a, .int s, .int per] =
+      (match validateTOTP O secret code ts (some ⟨Rest.digitsFromStr d, per, s, Rest.algoFromStr a⟩) with
+       | .ok (b, _) => .bool b
+       | _ => .error) := by
+  have hd := Props.C18.digitsFromStr_range d
+  have ha := Props.C18.algoFromStr_range a
+  unfold jsValidateTOTP validateTOTP
+  simp only [parseStringArg_str _ hne.1, parseStringArg_str _ hne.2.1, parseStringArg_str _ hne.2.2.1,
+    parseStringArg_str _ hne.2.2.2, parseIntArg_nat, hs, resolveTOTP]
+  rw [if_neg (by omega), if_neg (by omega), if_neg (by omega)]
+  have hep : effPeriod per = per := by unfold effPeriod; rw [if_neg (by omega)]
+  have hpn : ((per : Int)).toNat = per := by omega
+  have hsn : ((s : Int)).toNat = s := by omega
+  rw [hep, hpn, hsn]
+  have hchk : (fun x => accepted (validateWasm O code key x (Rest.digitsFromStr d) (Rest.algoFromStr a))) =
+      (fun x => accepted (validateRFC4226 O code key x (Rest.digitsFromStr d) (Rest.algoFromStr a))) := by
+    funext x; rw [C20_validate_core O code key x _ _ hd.1 hd.2 ha]
+  rw [hchk]
+  cases timeCounter (ts : Int) per with
+  | err e => rfl
+  | panic => rfl
+  | ok counter =>
+    simp only
+    cases windowLoop (totpProbe (fun x => accepted (validateRFC4226 O code key x (Rest.digitsFromStr d) (Rest.algoFromStr a))) counter) (s : Int) (2 * s + 1) (-(s : Int)) with
+    | ok b => cases b <;> rfl
+    | err e => rfl
+    | panic => rfl
+
+/-- C20 (TOTP generation): for periods 1..3600 the binding's `generateTOTP` returns the native code -/
+theorem C20_generateTOTP (O : HashOracle) (secret d a : Bytes) (ts per : Nat)
+    (hne : secret ≠ [] ∧ d ≠ [] ∧ a ≠ []) (hper : 1 ≤ per) (hper2 : per ≤ 3600) :
+    jsGenerateTOTP O [.str secret, .int ts, .str d, .str a, .int per] =
+      (match generateTOTP O secret ts (some ⟨Rest.digitsFromStr d, per, 0, Rest.algoFromStr a⟩) with
+       | .ok code => .str code
+       | _ => .error) := by
+  have hd := Props.C18.digitsFromStr_range d
+  have ha := Props.C18.algoFromStr_range a
+  unfold jsGenerateTOTP generateTOTP generateOTP
+  simp only [parseStringArg_str _ hne.1, parseStringArg_str _ hne.2.1, parseStringArg_str _ hne.2.2, parseIntArg_nat, resolveTOTP]
+  rw [if_neg (by omega)]
+  have hep : effPeriod per = per := by unfold effPeriod; rw [if_neg (by omega)]
+  have hpn : ((per : Int)).toNat = per := by omega
+  rw [hep, hpn]
+  cases hk : decodeSecret secret with
+  | err e => cases timeCounter (ts : Int) per <;> rfl
+  | panic => cases timeCounter (ts : Int) per <;> rfl
+  | ok key =>
+    cases timeCounter (ts : Int) per with
+    | err e => rfl
+    | panic => rfl
+    | ok counter =>
+      simp only
+      rw [C20_derive O key counter _ _ hd.1 hd.2 ha]
+      cases deriveRFC4226 O key counter (Rest.digitsFromStr d) (Rest.algoFromStr a) <;> rfl
+
+/-- C20 (period range): outside 1..3600 `generateTOTP` answers with an error string -/
+theorem C20_period_range (O : HashOracle) (secret d a : Bytes) (ts : Nat) (per : Int)
+    (hne : secret ≠ [] ∧ d ≠ [] ∧ a ≠ []) (h : per ≤ 0 ∨ 3600 < per) :
+    jsGenerateTOTP O [.str secret, .int ts, .str d, .str a, .int per] = .error := by
+  unfold jsGenerateTOTP
+  simp only [parseStringArg_str _ hne.1, parseStringArg_str _ hne.2.1, parseStringArg_str _ hne.2.2, parseIntArg_nat]
+  by_cases hneg : per < 0
+  · have : parseIntArg (.int per) = none := by unfold parseIntArg; simp only; rw [if_pos hneg]
+    rw [this]
+  · have : parseIntArg (.int per) = some per := by unfold parseIntArg; simp only; rw [if_neg hneg]
+    rw [this]
+    simp only
+    rw [if_pos h]
+
+/-- C20 (URL): the binding's `generateOTPURL` is the native URL builder applied to the same fields (period left to
+its default), rendered with `URL.String()` -/
+theorem C20_url (ty issuer account secret d a : Bytes) (hne : ty ≠ [] ∧ issuer ≠ [] ∧ account ≠ [] ∧ secret ≠ [] ∧ d ≠ [] ∧ a ≠ []) :
+    jsGenerateOTPURL [.str ty, .str issuer, .str account, .str secret, .str d, .str a] =
+      (let p : URLParam := { issuer := issuer, account := account, secret := secret, digits := Rest.digitsFromStr d,
+                             algo := Rest.algoFromStr a, period := 0 }
+       if ty = Rest.sTotpB then (match generateTOTPURL p with | .ok u => .str (Std.Url.urlString u) | _ => .error)
+       else if ty = Rest.sHotpB then (match generateHOTPURL p with | .ok u => .str (Std.Url.urlString u) | _ => .error)
+       else .error) := by
+  unfold jsGenerateOTPURL
+  simp only [parseStringArg_str _ hne.1, parseStringArg_str _ hne.2.1, parseStringArg_str _ hne.2.2.1,
+    parseStringArg_str _ hne.2.2.2.1, parseStringArg_str _ hne.2.2.2.2.1, parseStringArg_str _ hne.2.2.2.2.2]
+  by_cases h1 : ty = Rest.sTotpB
+  · simp only [h1, if_true]
+    cases generateTOTPURL _ <;> rfl
+  · simp only [h1, if_false]
+    by_cases h2 : ty = Rest.sHotpB
+    · simp only [h2, if_true]
+      cases generateHOTPURL _ <;> rfl
+    · simp only [h2, if_false]
+
 end OtpVerif.Props.C20
 
 #print axioms OtpVerif.Props.C20.C20_derive
@@ -211,3 +313,7 @@ end OtpVerif.Props.C20
 #print axioms OtpVerif.Props.C20.C20_arg_types
 #print axioms OtpVerif.Props.C20.C20_bad_first
 #print axioms OtpVerif.Props.C20.C20_exports
+#print axioms OtpVerif.Props.C20.C20_validateTOTP
+#print axioms OtpVerif.Props.C20.C20_generateTOTP
+#print axioms OtpVerif.Props.C20.C20_period_range
+#print axioms OtpVerif.Props.C20.C20_url
